@@ -116,11 +116,16 @@ def gen_ops(rng, recipe, ncols_hint=12):
     if rng.random() < 0.3: ops.append(['translate', [rng.uniform(-1000, 1000), round(rng.uniform(-1000, 1000), 2), rng.choice([0.0, round(rng.uniform(-50, 50), 1)])]])
     if rng.random() < (0.1 if big else 0.3): ops.append(['refine', rng.uniform(0.05, 0.5 if ncols_hint < 100 else 0.1), rng.randint(0, 10 ** 6)])
     if rng.random() < 0.25: ops.append(['reduce', rng.uniform(0.3, 0.9), rng.randint(0, 10 ** 6)])
+    # geometries that reached their state through edits (dict order != list order, orphan nodes, regenerated layers)
+    if rng.random() < 0.2: ops.append(['delete_column', rng.randint(0, 10 ** 6)])
+    if rng.random() < 0.25: ops.append(['refine_layers', rng.randint(0, 10 ** 6)])
     s = rng.random()
     if s < 0.25: pass
     elif s < 0.4: ops.append(['surface', 1.0, rng.randint(0, 10 ** 6)])
     else: ops.append(['surface', rng.choice([0.02, 0.1, 0.3, 0.6, 0.9]), rng.randint(0, 10 ** 6)])
     if rng.random() < 0.6: ops.append(['wells', rng.randint(1, 5), rng.randint(0, 10 ** 6)])
+    if rng.random() < 0.3: ops.append(['rename_layer', rng.randint(0, 10 ** 6)])
+    if rng.random() < 0.25: ops.append(['rename_column', rng.randint(0, 10 ** 6)])
     if rng.random() < 0.35: ops.append(['unit', 'FEET '])
     if rng.random() < 0.3:
         ops.append(['header', {'vol': rng.choice([1e25, 1e30, 1.0e20, 1e50, 12345.678]), 'con': rng.choice([1e-6, 1e-5, 2.5e-7]),
@@ -207,6 +212,32 @@ def build(recipe, repo):
                         p = p + np.array([r.uniform(-30, 30), r.uniform(-30, 30), -abs(top - bot) / npt * r.uniform(0.5, 1.0)])
                         pts.append(np.round(p, r.choice([0, 1, 1, 2, 6])))
                     g.add_well(well(nm, pts))
+            elif k == 'delete_column':
+                r = random.Random(op[1])
+                if g.num_columns > 2:
+                    g.delete_column(r.choice(g.columnlist).name)
+                    if r.random() < 0.5: g.delete_orphans()
+                    touched = True
+            elif k == 'refine_layers':
+                r = random.Random(op[1])
+                lays = [l.name for l in g.layerlist[1:] if r.random() < 0.4]
+                if lays and g.num_layers - 1 + len(lays) <= 60:
+                    g.refine_layers(lays, factor=2)
+            elif k == 'rename_layer':
+                # any layer but the last: its dictionary key moves to the end, the list keeps its place
+                r = random.Random(op[1])
+                if g.num_layers >= 3:
+                    lay = r.choice(g.layerlist[1:-1]) if r.random() < 0.8 else g.layerlist[0]
+                    used = set(g.layer)
+                    cand = [(a + b).rjust(g.layername_length) for a in 'zyxq' for b in 'zyxqj']
+                    cand = [c for c in cand if c not in used]
+                    if cand: g.rename_layer(lay.name, r.choice(cand))
+            elif k == 'rename_column':
+                r = random.Random(op[1])
+                used = set(g.column)
+                cand = [(a + b).rjust(g.colname_length) for a in 'zyxq' for b in 'zyxqj']
+                cand = [c for c in cand if c not in used]
+                if cand and g.num_columns >= 1: g.rename_column(r.choice(g.columnlist[:-1] or g.columnlist).name, r.choice(cand))
             elif k == 'unit': g.unit_type = op[1]
             elif k == 'block_order': g.block_order = op[1]
             elif k == 'header':
@@ -369,4 +400,20 @@ def check_roundtrip(g, tables, tmpdir, tag='g'):
         if abs(xs - a['nodes'][0][1] / 0.3048) > 0.005 * (1 + 1e-9) or hb['unit'] != 'FEET ' or h.unit_scale != 0.3048:
             return ('write_nodes', 'file x of first node %r for %r m (unit %r, scale %r)' % (xs, a['nodes'][0][1], hb['unit'], h.unit_scale),
                     'for a geometry in feet the file holds feet and the re-read geometry is in metres'), a, f1, None
+    # "reading it back" through the read() METHOD of objects that already hold a geometry: the object that wrote the
+    # file, and an object holding a different geometry; both must end up exactly as the fresh mulgrid(filename)
+    from mulgrids import well as _well
+    other = mulgrid().rectangular([7., 9., 11.], [13., 17.], [3., 4., 5.], convention=ha['conv'], atmos_type=(ha['atm'] + 1) % 3)
+    other.add_well(_well('OLD 1', [np.array([1., 2., 0.]), np.array([1., 2., -9.])]))
+    for who, obj in (('an object holding a different geometry', other), ('the object that wrote the file', g)):
+        try: quiet(obj.read, f1)
+        except Exception as e:
+            return ('read', 'read(filename) on %s raised %s: %s' % (who, type(e).__name__, e), 'the written file is read back', 'used-object'), a, f1, f2
+        c = abstract(obj)
+        if c != b or list(obj.block_name_list) != list(h.block_name_list) or \
+                list(obj.block_connection_name_list) != list(h.block_connection_name_list):
+            diff = next((k for k in ('hdr', 'nodes', 'cols', 'cons', 'lays', 'wells') if c[k] != b[k]), 'name lists')
+            what = '%d -> %d entries' % (len(b[diff]), len(c[diff])) if diff not in ('hdr', 'name lists') else ''
+            return ('read', 'read(filename) on %s differs from mulgrid(filename) in %s %s' % (who, diff, what),
+                    'reading the file gives the written geometry whatever the object held before', 'used-object'), a, f1, f2
     return None, a, f1, f2
